@@ -26,4 +26,75 @@ def error_codes(lean_str, lean_list):
             "def errorCodes : List (String × Nat) := " + lean_list(["(%s, %d)" % (lean_str(c.name), int(c)) for c in DDSErrorCode])]
 
 
-SECTIONS = [hash_options, stages, error_codes]
+def _registry_tables(reg, lean_str, lean_list, prefix):
+    from dds.structures_utils import SupportedTypeUtils as STU
+    import collections
+    probe = [("str", str), ("bytes", bytes), ("bytearray", bytearray), ("NoneType", type(None)), ("int", int),
+             ("dict", dict), ("list", list), ("object", object), ("OrderedDict", collections.OrderedDict)]
+    try:
+        import pandas
+        probe.append(("pandas.DataFrame", pandas.DataFrame))
+    except Exception:
+        pass
+    rows = []
+    for (nm, t) in probe:
+        try:
+            c = reg.get_codec(STU.from_type(t), None)
+            rows.append("(%s, %s)" % (lean_str(nm), lean_str(c.ref())))
+        except BaseException as e:
+            rows.append("(%s, %s)" % (lean_str(nm), lean_str("ERROR:" + type(e).__name__)))
+    refs = ["(%s, %s)" % (lean_str(r), lean_str(type(c).__name__)) for (r, c) in sorted(reg._protocols.items())]
+    return ["/-- %s registry: python type ↦ reference of the codec that writes it -/" % prefix,
+            "def %sTypeCodec : List (String × String) := %s" % (prefix, lean_list(rows)),
+            "/-- %s registry: protocol reference ↦ class of the codec that reads it -/" % prefix,
+            "def %sRefCodec : List (String × String) := %s" % (prefix, lean_list(refs))]
+
+
+def codec_tables(lean_str, lean_list):
+    import dds.codec as codec
+    reg = codec._build_default_registry()
+    out = _registry_tables(reg, lean_str, lean_list, "local")
+    import os, sys, tempfile, shutil
+    sys.path.insert(0, os.path.dirname(os.path.abspath(__file__)))
+    from fakedbutils import make_dbfs_store
+    d = tempfile.mkdtemp(prefix="ddsverif_facts_")
+    try:
+        st = make_dbfs_store(d)
+        out += _registry_tables(st.codec_registry(), lean_str, lean_list, "dbfs")
+    finally:
+        shutil.rmtree(d, ignore_errors=True)
+    return out
+
+
+def commit_types(lean_str, lean_list):
+    """which spellings set_store(commit_type=...) accepts, and the commit type each gives"""
+    import os, sys, tempfile, shutil
+    import dds._api as api
+    sys.path.insert(0, os.path.dirname(os.path.abspath(__file__)))
+    from fakedbutils import FakeDbutils
+    from dds.codecs.databricks import CommitType
+    rows = []
+    d = tempfile.mkdtemp(prefix="ddsverif_facts_")
+    saved = api._store_var
+    try:
+        for sp in ["full", "links_only", "none", "FULL", "LINK_ONLY", "NO_COMMIT", "link_only", "no_commit", "Links_Only", "bogus"]:
+            try:
+                api.set_store("dbfs", "dbfs:/i", "dbfs:/d", FakeDbutils(d), sp, None)
+                rows.append("(%s, some %s)" % (lean_str(sp), lean_str(api._store_var._commit_type.name)))
+            except BaseException as e:
+                rows.append("(%s, none)" % lean_str(sp))
+        try:
+            api.set_store("dbfs", "dbfs:/i", "dbfs:/d", FakeDbutils(d), None, None)
+            default = api._store_var._commit_type.name
+        except BaseException:
+            default = "ERROR"
+    finally:
+        api._store_var = saved
+        shutil.rmtree(d, ignore_errors=True)
+    return ["/-- `set_store('dbfs', commit_type=s)`: spelling ↦ resulting `CommitType` member (none: rejected) -/",
+            "def commitTypeSpellings : List (String × Option String) := " + lean_list(rows),
+            "def commitTypeDefault : String := " + lean_str(default),
+            "def commitTypeMembers : List String := " + lean_list([lean_str(c.name) for c in CommitType])]
+
+
+SECTIONS = [hash_options, stages, error_codes, codec_tables, commit_types]
